@@ -82,6 +82,29 @@ pub fn send(r: &mut Router, c: &Client, packets: Vec<Packet>) {
     settle(r);
 }
 
+thread_local! {
+    /// C20: every notification any of these tests takes from an outgoing buffer is also handed to BOTH protocol writers,
+    /// exactly as the link task would (router::MaybePacket::from, then Protocol::write); failures are collected here
+    pub static ENCODE_FAILURES: std::cell::RefCell<Vec<String>> = std::cell::RefCell::new(vec![]);
+    pub static ENCODED: std::cell::Cell<u64> = std::cell::Cell::new(0);
+}
+
+pub fn check_encodable(n: &RNotification) {
+    use crate::protocol::Protocol;
+    let packet: crate::router::MaybePacket = n.clone().into();
+    let Some(packet) = packet else { return };
+    ENCODED.with(|c| c.set(c.get() + 1));
+    for v5 in [false, true] {
+        let mut buf = bytes::BytesMut::new();
+        let p = packet.clone();
+        let r = catch_unwind(AssertUnwindSafe(|| if v5 { crate::protocol::v5::V5.write(p, &mut buf) } else { crate::protocol::v4::V4.write(p, &mut buf) }));
+        let bad = match r { Err(_) => Some("panicked".to_string()), Ok(Err(e)) => Some(format!("failed: {:?}", e)), Ok(Ok(_)) => None };
+        if let Some(b) = bad {
+            ENCODE_FAILURES.with(|f| f.borrow_mut().push(format!("{} towards an MQTT {} link: write {}", show(n), if v5 { "5" } else { "3.1.1" }, b)));
+        }
+    }
+}
+
 /// what the link would read from its outgoing buffer; answers Unschedule with Ready like the link does
 pub fn drain(r: &mut Router, c: &Client) -> Vec<RNotification> {
     let mut out = vec![];
@@ -90,6 +113,7 @@ pub fn drain(r: &mut Router, c: &Client) -> Vec<RNotification> {
         if got.is_empty() {
             break;
         }
+        got.iter().for_each(check_encodable);
         let unscheduled = got.iter().any(|n| matches!(n, RNotification::Unschedule));
         out.extend(got.into_iter().filter(|n| !matches!(n, RNotification::Unschedule)));
         if unscheduled {
@@ -1399,12 +1423,15 @@ fn will_is_published_once_unless_the_client_said_disconnect() {
     let mut fail: Option<String> = None;
     'outer: for has_will in [false, true] {
         for retain in [false, true] {
-            for said_disconnect in [false, true] {
+            // how the connection ends: 0 link failure, 1 the client says DISCONNECT, 2 the router closes it after an unsolicited PUBACK,
+            // 3 the router closes it after an unsolicited PUBCOMP (both are ends the client did not announce)
+            for ending in 0..4u8 {
+                let said_disconnect = ending == 1;
                 for subscribers in 0..=2usize {
                     for signals in 1..=2usize {
                         for will_qos in 0..2u8 {
                             cases += 1;
-                            let desc = format!("will registered: {}, retained will: {}, client sent DISCONNECT: {}, {} matching subscriber(s), PublishWill signalled {} time(s), will QoS {}", has_will, retain, said_disconnect, subscribers, signals, will_qos);
+                            let desc = format!("will registered: {}, retained will: {}, connection ends by {}, {} matching subscriber(s), PublishWill signalled {} time(s), will QoS {}", has_will, retain, ["link failure", "client DISCONNECT", "router close after an unsolicited PUBACK", "router close after an unsolicited PUBCOMP"][ending as usize], subscribers, signals, will_qos);
                             let mut r = new_router();
                             let mut subs = vec![];
                             for i in 0..subscribers {
@@ -1420,9 +1447,19 @@ fn will_is_published_once_unless_the_client_said_disconnect() {
                             let c = connect_with_will(&mut r, "c", true, w).unwrap();
                             if said_disconnect {
                                 send(&mut r, &c, vec![Packet::Disconnect(crate::protocol::Disconnect { reason_code: crate::protocol::DisconnectReasonCode::NormalDisconnection }, None)]);
+                            } else if ending == 2 {
+                                send(&mut r, &c, vec![puback(42)]);
+                                let _ = drain(&mut r, &c);
+                            } else if ending == 3 {
+                                send(&mut r, &c, vec![pubcomp(42)]);
+                                let _ = drain(&mut r, &c);
                             } else {
                                 r.events(c.id, Event::Disconnect);
                                 settle(&mut r);
+                            }
+                            if ending >= 2 && r.connection_map.contains_key("c") {
+                                fail = Some(format!("input=[{}] detail=[the router did not close the offending connection]", desc));
+                                break 'outer;
                             }
                             for _ in 0..signals {
                                 r.events(c.id, Event::PublishWill(("c".to_owned(), None)));
@@ -1457,7 +1494,7 @@ fn will_is_published_once_unless_the_client_said_disconnect() {
             }
         }
     }
-    report(name, "C16", "will registered or not x retained or not x DISCONNECT seen or not x 0..2 matching subscribers x 1..2 PublishWill signals x will QoS 0/1", cases, fail);
+    report(name, "C16", "will registered or not x retained or not x 4 ways the connection ends (link failure, client DISCONNECT, router close after an unsolicited PUBACK / PUBCOMP) x 0..2 matching subscribers x 1..2 PublishWill signals x will QoS 0/1", cases, fail);
 }
 
 // ---------------------------------------------------------------------------------------------
@@ -1864,4 +1901,78 @@ fn saved_session_survives_refused_reconnect_and_needs_no_subscription() {
         }
     }
     report(name, "C08,C19", "persistent client without subscriptions (1..2 reconnects); refused reconnect at the connection limit with 0..2 unacknowledged messages", cases, fail);
+}
+
+
+// ---------------------------------------------------------------------------------------------
+// C20 at router level: whatever the routing core really hands to a link is encodable by both protocol writers
+// (the codec-level stand-in in codec_spec.rs enumerates packet SHAPES; this one takes the packets the router
+// actually produces: QoS downgrades keep the publisher's packet id, retained replays, acks, router-initiated
+// DISCONNECT, wills, MQTT 5 publish properties passed through)
+// ---------------------------------------------------------------------------------------------
+// @native props=C20 tier=quick fn=Router::{handle_device_payload,forward_device_data}+Outgoing::push_forwards+V4::write+V5::write
+#[test]
+fn everything_the_router_hands_to_a_link_is_encodable_by_both_protocols() {
+    let name = "rumqttd::Router#every_emitted_notification_is_encodable_v4_and_v5";
+    let prev = std::panic::take_hook();
+    std::panic::set_hook(Box::new(|_| {}));
+    let mut cases = 0u64;
+    let mut fail: Option<String> = None;
+    ENCODE_FAILURES.with(|f| f.borrow_mut().clear());
+    ENCODED.with(|c| c.set(0));
+    let props = |k: u8| -> Option<PublishProperties> {
+        match k {
+            0 => None,
+            1 => Some(PublishProperties { payload_format_indicator: Some(1), message_expiry_interval: Some(1000), topic_alias: None, response_topic: Some("r/t".into()), correlation_data: Some(Bytes::from_static(b"cd")), user_properties: vec![("k".into(), "v".into())], subscription_identifiers: vec![], content_type: Some("text/plain".into()) }),
+            _ => Some(PublishProperties { payload_format_indicator: None, message_expiry_interval: None, topic_alias: None, response_topic: None, correlation_data: None, user_properties: vec![], subscription_identifiers: vec![], content_type: Some("".into()) }),
+        }
+    };
+    'outer: for pq in 0..3u8 {
+        for sq in 0..3u8 {
+            for pk in 0..3u8 {
+                for retain in [false, true] {
+                    cases += 1;
+                    let desc = format!("publisher QoS {} (packet id 7), publish properties kind {}, retain {}, subscriber granted QoS {}, late subscriber, unsolicited ack", pq, pk, retain, sq);
+                    let mut r = Router::new(0, cfg(1024 * 1024, 10, Strategy::RoundRobin));
+                    let p = connect(&mut r, "p", true).unwrap();
+                    let s1 = connect(&mut r, "s1", true).unwrap();
+                    send(&mut r, &s1, vec![subscribe(1, &[("a/+", sq)])]);
+                    let _ = drain(&mut r, &s1);
+                    let q = match pq { 0 => QoS::AtMostOnce, 1 => QoS::AtLeastOnce, _ => QoS::ExactlyOnce };
+                    let publ = Packet::Publish(Publish { dup: false, qos: q, pkid: if pq == 0 { 0 } else { 7 }, retain, topic: Bytes::from_static(b"a/b"), payload: Bytes::from_static(b"x") }, props(pk));
+                    send(&mut r, &p, vec![publ]);
+                    if pq == 2 {
+                        let _ = drain(&mut r, &p);
+                        send(&mut r, &p, vec![pubrel(7)]);
+                    }
+                    let _ = drain(&mut r, &p);
+                    let got = receive_all(&mut r, &s1);
+                    if got.len() != 1 {
+                        fail = Some(format!("input=[{}] detail=[subscriber received {} messages]", desc, got.len()));
+                        break 'outer;
+                    }
+                    // a late subscriber gets the retained copy
+                    let s2 = connect(&mut r, "s2", true).unwrap();
+                    send(&mut r, &s2, vec![subscribe(1, &[("a/b", sq)])]);
+                    let _ = receive_all(&mut r, &s2);
+                    // an unsolicited ack makes the router close that connection (DISCONNECT notification)
+                    send(&mut r, &s2, vec![puback(99)]);
+                    let _ = drain(&mut r, &s2);
+                    send(&mut r, &p, vec![Packet::PingReq(crate::protocol::PingReq)]);
+                    let _ = drain(&mut r, &p);
+                    let bad = ENCODE_FAILURES.with(|f| f.borrow().first().cloned());
+                    if let Some(b) = bad {
+                        fail = Some(format!("input=[{}] detail=[{}]", desc, b));
+                        break 'outer;
+                    }
+                }
+            }
+        }
+    }
+    std::panic::set_hook(prev);
+    let n = ENCODED.with(|c| c.get());
+    if fail.is_none() && n < cases * 4 {
+        fail = Some(format!("input=[all scenarios] detail=[only {} notifications were produced over {} scenarios: the harness is not exercising the router]", n, cases));
+    }
+    report(name, "C20", "publisher QoS 0/1/2 x 3 kinds of MQTT 5 publish properties x retain x granted QoS 0/1/2, with a late subscriber (retained replay), an unsolicited ack (router DISCONNECT) and a ping; every notification taken from an outgoing buffer is written by V4::write and V5::write", cases, fail);
 }
